@@ -17,6 +17,8 @@ def gen(rng, tier, n):
     cases = []
     for _ in range(n):
         kind = rng.choice(["mem", "mem", "sqlite", "paged"])     # paged: no ReadStream, pages of at most 2 events
+        if rng.random() < 0.3:                                     # offsets in an explicit SubscriptionStore of their own,
+            kind += rng.choice(["+sub", "+bus"])                   # given after / before WithStore
         lines = ["kind %s" % kind]
         nops_guess = rng.randint(5, 40)
         x = rng.random()
@@ -40,7 +42,7 @@ def gen(rng, tier, n):
                 if cand:
                     i = rng.choice(cand)
                     pd = "-"
-                    if rng.random() < 0.12 and kind != "paged":   # (a paged replay sees what is appended meanwhile: another model)
+                    if rng.random() < 0.12 and not kind.startswith("paged"):   # (a paged replay sees what is appended meanwhile: another model)
                         pd = "%d:%d" % (rng.randint(1, 3), 900 + rec); rec += 1
                     lines.append("sub %d %d %s" % (i, ids[i], pd))
                     live.add(i)       # (if it fails the generator may try again only after a restart; fine)
